@@ -70,6 +70,10 @@ def main(argv):
         if only:
             cases = [c for c in cases if str(c.get("cls")) in only.split(",")]
         replay = False
+    if replay:      # sub-seeds derive from the recorded index: keep it aside, results are keyed by position
+        for c in cases:
+            c["_orig_i"] = c.get("_orig_i", c.get("_i", 0))
+            c["_i"] = 0
     for i, c in enumerate(cases):
         c.setdefault("_i", i)
     njobs = int(os.environ.get("VERIF_JOBS", max(1, (os.cpu_count() or 4) - 2)))
